@@ -37,12 +37,19 @@ Definition decide_q (t : tally) : vresult :=
   else if t_total t <=? 2 * (t_no t + t_abstain t + t_veto t) then Rejected
   else Unknown.
 
-(* types.IsQuorum: an error (turned into a panic by processProposal) when there are more votes
-   than voters or the quorum exceeds 1; otherwise votes >= voters * quorum on sdk.Dec *)
+(* types.IsQuorum: an error when there are more votes than voters or the quorum exceeds 1;
+   otherwise votes >= voters * quorum on sdk.Dec (Mul panics beyond 315 bits) *)
 Definition is_quorum (q votes voters : Z) : outcome bool :=
-  if voters <? votes then Panic "Invalid quorum on proposal: more votes than voters"
-  else if PREC <? q then Panic "Invalid quorum on proposal: quorum bigger than 1"
+  if voters <? votes then Err "there is more votes than voters"
+  else if PREC <? q then Err "quorum cannot be bigger than 1.00"
   else do need <- dmul (dec_of_int voters) q; Ok (need <=? dec_of_int votes).
+(* processProposal on that error: the earlier code panicked ("Invalid quorum on proposal", halting
+   the chain); the repaired code logs it and treats the tally as quorum NOT reached.  Which of the
+   two the tree does is read from x/gov/abci.go on every run (Gen/GovHandlers.v). *)
+Definition quorum_checked (err_panics : bool) (q votes voters : Z) : outcome bool :=
+  match is_quorum q votes voters with
+  | Err e => if err_panics then Panic "Invalid quorum on proposal" else Ok false
+  | r => r end.
 
 (* ---------------------------------------------------------------- votes and queues *)
 (* votes of one proposal: association list voter -> option; SaveVote overwrites the key *)
@@ -85,12 +92,13 @@ Record params (A content ext : Type) := mkParams {
   min_enact_blocks : A -> Z;
   handler : content -> A -> outcome A;          (* ProposalHandler.Apply *)
   ext_step : ext -> A -> A;                     (* anything else that happens on the chain *)
-  decide : tally -> vresult }.                  (* CalculatedVotes.ProcessResult *)
+  decide : tally -> vresult;                    (* CalculatedVotes.ProcessResult *)
+  quorum_error_panics : bool }.                 (* processProposal: IsQuorum error => panic (true) or quorum not reached (false) *)
 Arguments valid_basic {A content ext}. Arguments can_propose {A content ext}. Arguments is_active {A content ext}.
 Arguments has_vote_perm {A content ext}. Arguments nvoters {A content ext}. Arguments nveto {A content ext}.
 Arguments quorum_of {A content ext}. Arguments end_secs {A content ext}. Arguments enact_secs {A content ext}.
 Arguments min_end_blocks {A content ext}. Arguments min_enact_blocks {A content ext}. Arguments handler {A content ext}.
-Arguments ext_step {A content ext}. Arguments decide {A content ext}.
+Arguments ext_step {A content ext}. Arguments decide {A content ext}. Arguments quorum_error_panics {A content ext}.
 
 Section Records.
 Variables (A content : Type).
@@ -180,7 +188,7 @@ Definition process_prop (c : ctx) (id : Z) (s : state) : outcome state :=
         let tl := tally_of (votes s id) ((nveto P) a ct) in
         let nv := (nvoters P) a ct in
         let q := (quorum_of P) a ct in
-        do qb <- is_quorum q (t_total tl) nv;
+        do qb <- quorum_checked (quorum_error_panics P) q (t_total tl) nv;
         let res := final_result qb tl in
         let mine := height c + (min_enact_blocks P) a in
         let p' := mkP ct (p_submit p) (p_vend p) (p_eend p) (p_minv p) mine res (p_exec p) in
